@@ -793,11 +793,153 @@ def node_creation(facts, rep):
         rep.ob("C09.F", "add_node-infers", ok, "add_node passes no type: the type is inferred (node removed on failure, see C11.R)", an.loc())
 
 
+def payload_indices(facts, rep):
+    """C09.X: indices taken from the operation's parameters (axes, field ids) are range-checked before use"""
+    from . import C12
+    rep.rule("C09.X", "in the type-inference slice every Vec index whose operand derives from the Operation payload (an axis, a "
+                      "field id, a permutation entry) is guarded by a comparison of a payload-derived value against len() of a "
+                      "container of the same element type (dominating guard or completed table-level validation loop); "
+                      "otherwise an out-of-range parameter panics in add_node instead of being rejected")
+    layer = CG.reach(facts, [ENTRY], stop=lambda n: n in facts.bodies and not in_slice_file(facts.bodies[n]))
+    layer = {n: v for n, v in layer.items() if in_slice_file(facts.bodies[n])}
+
+    def is_payload(o):
+        return o[0] == "call" and o[2] == "graphs::Node::get_operation"
+    n = 0
+    for name in sorted(layer):
+        b = facts.bodies[name]
+        idx = [(bb, t) for bb, t in b.calls() if (callee_name(t) or "").endswith(("::index", "::index_mut"))
+               and "ops::Index" in (t["f"].get("def") or "") and not b.is_cleanup(bb)]
+        if not idx:
+            continue
+        fl = Flow(facts, b)
+        guards = None
+        ordn = 0
+        for bb, t in idx:
+            k = t["args"][1]
+            if k[0] == "k":
+                continue
+            data = sorted(o for o in fl.leaf_deps(k, (bb, None)) if is_payload(o))
+            if not data:
+                continue
+            if guards is None:
+                guards = C12.collect_guards(facts, b, fl, datum=is_payload)
+                # comparisons may involve arithmetic on the payload: widen the guard's datum set through leaf_deps
+                for g in guards:
+                    pass
+            n += 1
+            elem = C12.elem_type(t["f"]["ga"][0]) if t["f"].get("ga") else None
+            ok, why = C12.index_guarded(b, fl, bb, data, elem, guards)
+            rep.ob("C09.X", "%s|payload-index#%d" % (name, ordn), ok,
+                   why if ok else why + " (index derived from the operation's parameters)", b.loc(bb))
+            ordn += 1
+    rep.floor("C09.X", "payload-derived index sites", n, 5)
+
+
+PURE_ACCESSORS = ("::get_scalar_type", "::get_shape", "::get_dimensions", "::len", "::is_array", "::is_scalar", "::is_tuple",
+                  "::is_vector", "::is_named_tuple", "::get_type", "::get_modulus", "::is_signed", "::size_in_bits",
+                  "::clone", "::deref", "::as_ref", "::borrow", "::to_vec", "::as_slice")
+
+
+def _mutated_later(fl, b, l):
+    """is local l (or a copy of it) ever mutably borrowed or partially assigned"""
+    key = ("mutated", l)
+    if key in b._cache:
+        return b._cache[key]
+    res = False
+    for bb2, j2, place, rv in b.assigns():
+        if rv[0] == "ref" and rv[1] == "mut" and fl.root_of(rv[2][0]) == l:
+            res = True
+        if len(place) > 1 and place[0] == l and place[1] != "*":
+            res = True
+        if rv[0] == "use" and rv[1][0] == "m" and rv[1][1] == [l] and len(place) == 1:
+            # moved into another local (e.g. `let mut tmp = s.clone();` binds the temporary): follow
+            if place[0] != l and _mutated_later(fl, b, place[0]):
+                res = True
+    b._cache[key] = res
+    return res
+
+
+def expr_sig(fl, b, op, depth=0):
+    """structural signature of a side-effect-free expression: the same signature = the same value"""
+    if op[0] == "k":
+        return ("const", op[2])
+    place = op[1]
+    l = place[0]
+    projs = tuple(p for p in place[1:] if p != "*")
+    ds = fl.defs_of.get(l, [])
+    if 1 <= l <= b.argc or len(ds) != 1 or depth > 12:
+        return ("local", l, projs)
+    _, bb, j = fl.defs[ds[0]]
+    if bb < 0:
+        return ("local", l, projs)
+    if j is None:
+        t = b.term(bb)
+        n = callee_name(t) or ""
+        d = t["f"].get("def") or ""
+        if n.endswith(PURE_ACCESSORS) or d in ("std::clone::Clone::clone", "std::ops::Deref::deref"):
+            short = "same" if (n.endswith(("::clone", "::deref", "::as_ref", "::borrow")) or d.startswith("std::clone")) else n
+            if short == "same" and (n.endswith("::clone") or d.startswith("std::clone")) and _mutated_later(fl, b, l):
+                return ("opaque", bb, projs)  # a clone that is modified afterwards is a different value
+            args = tuple(expr_sig(fl, b, a, depth + 1) for a in t["args"])
+            if short == "same" and len(args) == 1:
+                return args[0] if not projs else ("proj", args[0], projs)
+            return ("call", short, args, projs)
+        return ("opaque", bb, projs)
+    rv = b.stmts(bb)[j][2]
+    if rv[0] in ("ref", "raw"):
+        inner = expr_sig(fl, b, ["c", rv[2]], depth + 1)
+        return inner if not projs else ("proj", inner, projs)
+    if rv[0] == "use":
+        inner = expr_sig(fl, b, rv[1], depth + 1)
+        return inner if not projs else ("proj", inner, projs)
+    return ("opaque", bb, j, projs)
+
+
+def self_comparisons(facts, rep):
+    """C09.S: a guard that compares a value with itself is constant - the check it was meant to be is missing"""
+    rep.rule("C09.S", "no equality/order test in the type-inference slice compares an expression with itself (same pure accessor chain "
+                      "on the same local): such a guard is constant, so the validation it stands for never rejects anything")
+    layer = CG.reach(facts, [ENTRY], stop=lambda n: n in facts.bodies and not in_slice_file(facts.bodies[n]))
+    layer = {n: v for n, v in layer.items() if in_slice_file(facts.bodies[n])}
+    n = 0
+    for name in sorted(layer):
+        b = facts.bodies[name]
+        fl = None
+        k = 0
+        for bb, t in b.calls():
+            d = t["f"].get("def") or ""
+            if d not in ("std::cmp::PartialEq::eq", "std::cmp::PartialEq::ne", "std::cmp::PartialOrd::lt", "std::cmp::PartialOrd::le",
+                         "std::cmp::PartialOrd::gt", "std::cmp::PartialOrd::ge") or len(t["args"]) != 2 or b.is_cleanup(bb) or t["x"]:
+                continue
+            fl = fl or Flow(facts, b)
+            a, c = expr_sig(fl, b, t["args"][0]), expr_sig(fl, b, t["args"][1])
+            n += 1
+            same = a == c and a[0] not in ("const", "opaque")
+            if same:
+                rep.fail("C09.S", "%s|self-comparison#%d" % (name, k),
+                         "both sides of this comparison are the same expression (%s): the test is constant" % str(a)[:120], b.loc(bb))
+                k += 1
+        for bb, j, place, rv in b.assigns():
+            if rv[0] == "bin" and rv[1] in ("Eq", "Ne", "Lt", "Le", "Gt", "Ge") and not b.stmts(bb)[j][4]:
+                fl = fl or Flow(facts, b)
+                a, c = expr_sig(fl, b, rv[2]), expr_sig(fl, b, rv[3])
+                n += 1
+                if a == c and a[0] not in ("const", "opaque"):
+                    rep.fail("C09.S", "%s|self-comparison#%d" % (name, k),
+                             "both sides of this comparison are the same expression (%s): the test is constant" % str(a)[:120], b.loc(bb))
+                    k += 1
+    rep.ob("C09.S", "scan", True, "%d comparisons of the type-inference slice examined" % n)
+    rep.floor("C09.S", "comparisons examined", n, 100)
+
+
 _run_k = run
 
 
 def run(facts, rep, tier):
     _run_k(facts, rep, tier)
+    payload_indices(facts, rep)
+    self_comparisons(facts, rep)
     arity_rules(facts, rep)
     evaluator_total(facts, rep)
     node_creation(facts, rep)
